@@ -7,6 +7,7 @@
 #pragma once
 
 #include <pika/config.hpp>
+#include <pika/config/verif_hooks.hpp>
 #include <pika/assert.hpp>
 #include <pika/functional/unique_function.hpp>
 #include <pika/logging.hpp>
@@ -380,7 +381,9 @@ namespace pika::threads::detail {
 #  endif
 # endif
 
+                                PIKA_VERIF_POINT(::pika::verif::sched_before_run, thrdptr, num_thread);
                                 thrd_stat = (*thrdptr)(context_storage);
+                                PIKA_VERIF_POINT(::pika::verif::sched_after_run, thrdptr, num_thread);
 #endif
                             }
 
@@ -397,6 +400,7 @@ namespace pika::threads::detail {
                             // executing this pika-thread, we just continue with
                             // the next one
                             thrd_stat.disable_restore();
+                            PIKA_VERIF_POINT(::pika::verif::sched_cas_lost, get_thread_id_data(thrd), num_thread);
                             write_state_log_warning(
                                 scheduler, num_thread, thrd, state_val, "no execution");
                             continue;
@@ -408,12 +412,15 @@ namespace pika::threads::detail {
                             // some other worker-thread got in between and changed
                             // the state of this thread, we just continue with
                             // the next one
+                            PIKA_VERIF_POINT(::pika::verif::sched_store_lost, get_thread_id_data(thrd), num_thread);
                             write_state_log_warning(
                                 scheduler, num_thread, thrd, state_val, "no state change");
                             continue;
                         }
 
                         state_val = state.state();
+                        PIKA_VERIF_POINT(::pika::verif::sched_after_store, get_thread_id_data(thrd), num_thread,
+                            static_cast<std::uint64_t>(state_val));
 
                         // any exception thrown from the thread will reset its
                         // state at this point
@@ -484,6 +491,7 @@ namespace pika::threads::detail {
                 else if (PIKA_UNLIKELY(thread_schedule_state::active == state_val))
                 {
                     auto* thrdptr = get_thread_id_data(thrd);
+                    PIKA_VERIF_POINT(::pika::verif::sched_resched_active, thrdptr, num_thread);
                     PIKA_LOG(warn,
                         "pool({}), scheduler({}), worker_thread({}), thread({}), "
                         "description({}), rescheduling",
